@@ -204,7 +204,13 @@ def corrupt(pid, tr, rng):
     for i in idx:
         e = evs[i]
         post = e["post"]
-        if pid == "C01" and e["op"] == "call" and isinstance(e["res"], int) and e["res"] >= 0:
+        if pid == "C01" and e["op"] == "call" and isinstance(e["res"], int) and e["res"] >= 0 \
+                and not e["c"][1] \
+                and not any(f.get("catch") for f in t["hdr"]["init"]["flib"].values()) \
+                and not any(x.get("res") == "rejected" for x in evs):
+            # (results behind a swallowed failure are exempt as KF1, a half-updated model -- KF4 --
+            #  stops the judgement of the rest of its trace, and an instance named with a shortened
+            #  key is not judged by name: such calls are no controls)
             e["res"] += 1
             return t, "C01.Transparent"
         if pid == "C02" and not any(f.get("catch") for f in t["hdr"]["init"]["flib"].values()) \
